@@ -139,9 +139,25 @@ def _int_to_cst(value: int) -> cst.BaseExpression:
     if value < 0:
         return cst.UnaryOperation(
             operator=cst.Minus(),
-            expression=cst.Integer(str(abs(value))),
+            expression=cst.Integer(_int_digits(abs(value))),
         )
-    return cst.Integer(str(value))
+    return cst.Integer(_int_digits(value))
+
+
+def _int_digits(value: int) -> str:
+    """Provide the literal for a non-negative integer.
+
+    Args:
+        value: The integer
+
+    Returns:
+        Its decimal digits, or hexadecimal ones for a value with more digits than
+        the interpreter converts to a decimal string.
+    """
+    try:
+        return str(value)
+    except ValueError:
+        return hex(value)
 
 
 def _float_to_cst(value: float) -> cst.BaseExpression:
